@@ -46,6 +46,12 @@ theorem scpi_ask_roundtrip (cfg : Cfg) (t : Tr) (cmd : List Nat) (reply rest : B
     simp [ask, write, encodeAscii, all_lt_of cmd hcmd, Tr.write, Tr.readUntil, hpend, hsplit, hpost, hrx',
       written_app, written]
 
+-- non-vacuity: stale bytes discarded, reply with a CR inside, CR LF terminator, next reply left in the buffer
+example : (ask { cmdTerm := [10], respTerm := [13, 10] } { rx := [57, 13, 10], pending := [49, 13, 50, 13, 10, 51] } [42, 73] (some 3) true).2.toOption
+      = some [49, 13, 50]
+    ∧ (ask { cmdTerm := [10], respTerm := [13, 10] } { rx := [57, 13, 10], pending := [49, 13, 50, 13, 10, 51] } [42, 73] (some 3) true).1.rx = [51] := by
+  decide
+
 example : FirstAtEnd [13, 10] [49, 13, 50] ∧ FirstAtEnd [10] [] := by
   constructor <;> intro k hk <;> (simp at hk; (try omega)) <;> (have : k = 0 ∨ k = 1 ∨ k = 2 := by omega) <;>
     rcases this with rfl | rfl | rfl <;> decide
@@ -89,6 +95,12 @@ theorem scpi_ask_unterminated_errors (cfg : Cfg) (t : Tr) (cmd : List Nat) (to :
   cases discard with
   | true => exact key t.discard (by simpa [Tr.discard] using hno)
   | false => exact key t (by simpa using hno)
+
+-- non-vacuity: no terminator in the stream — strict transport times out, sloppy transport hands the bytes out and `ask` raises
+example : (ask { cmdTerm := [10], respTerm := [10] } { rx := [], pending := [49, 50] } [42] none false).2.toOption = none
+    ∧ splitAfter [10] [49, 50] = none ∧ endsWith [49, 50] [10] = false
+    ∧ (ask { cmdTerm := [10], respTerm := [10] } { rx := [], pending := [49, 50], sloppy := true } [42] none false).2.toOption = none := by
+  decide
 
 /-- Soundness of `ask`: a value is returned only for a response that really ends in the terminator, and the value is that
 response without it. -/
@@ -137,6 +149,10 @@ theorem readBinary_roundtrip (cfg : Cfg) (t : Tr) (flag : Bool) (to : Option Nat
     rw [read_prefix _ cfg.respTerm rest _ rfl]
     simp
   | false => simp
+
+-- non-vacuity: a block with a zero-padded length field, "#3005hello\n", followed by the start of the next block
+example : (readBinary { cmdTerm := [10], respTerm := [10] } { rx := [35, 51, 48, 48, 53, 104, 101, 108, 108, 111, 10, 35] } true none).2.toOption
+      = some [104, 101, 108, 108, 111] := by decide
 
 /-- The canonical device encoder (IEEE 488.2 definite length block + terminator) is decoded exactly, for every payload
 whose length has 1..9 digits; whatever follows stays in the buffer. -/
@@ -220,6 +236,14 @@ theorem readBinary_bad_tail (cfg : Cfg) (t : Tr) (to : Option Nat) (k : UInt8) (
   simp only [if_true, ← htl]
   rw [read_prefix _ tail rest _ rfl]
   simp [hne]
+
+-- non-vacuity of the four malformed-block theorems: "$15a\n", "#x5a\n", "#05a\n", "#2 5hello\n", "#15hello;"
+example : (readBinary { cmdTerm := [10], respTerm := [10] } { rx := [36, 49, 53, 97, 10] } true none).2.toOption = none
+    ∧ (readBinary { cmdTerm := [10], respTerm := [10] } { rx := [35, 120, 53, 97, 10] } true none).2.toOption = none
+    ∧ (readBinary { cmdTerm := [10], respTerm := [10] } { rx := [35, 48, 53, 97, 10] } true none).2.toOption = none
+    ∧ (readBinary { cmdTerm := [10], respTerm := [10] } { rx := [35, 50, 32, 53, 104, 101, 108, 108, 111, 10] } true none).2.toOption = none
+    ∧ (readBinary { cmdTerm := [10], respTerm := [10] } { rx := [35, 49, 53, 104, 101, 108, 108, 111, 59] } true none).2.toOption = none := by
+  decide
 
 /-- Only three things can come out of `read_binary_data` on a contract-abiding transport: the data,
 `QMI_InstrumentException`, or the transport's time-out. -/
@@ -366,11 +390,6 @@ theorem btag_after (last n : Nat) (h1 : 1 ≤ last) (h2 : last ≤ 255) : tagAft
 
 example : tagAfter 254 1 = 255 ∧ tagAfter 254 2 = 1 ∧ tagAfter 0 1 = 1 ∧ tagAfter 255 255 = 255 := by decide +kernel
 
-theorem writeRaw_eq_loop (mts last : Nat) (d : Bytes) (hm : 1 ≤ mts) :
-    writeRaw mts none last d = writeLoop mts none d.length 0 last d := by
-  have : ¬ (mts = 0 ∧ (!d.isEmpty) = true) := by omega
-  simp only [writeRaw, this, if_false]
-
 /-- an empty payload sends nothing and leaves the tag alone -/
 theorem writeRaw_empty (mts last : Nat) (hm : 1 ≤ mts) :
     writeRaw mts none last [] = { last, sent := [] } := by
@@ -446,6 +465,8 @@ theorem device_decodes_writes (mts : Nat) (hm : 1 ≤ mts) (h32 : mts < 42949672
       simp [g3, this]
 
 
+example : (({} : Dev).run (writeMany 2 254 [[1, 2, 3], [], [4]]).2).map Dev.msgs = some [[1, 2, 3], [4]] := by decide
+
 /-- **readRaw_reassembles**: however a device splits a reply into transfers (any number of pieces, any piece sizes
 including empty ones, any alignment padding, EOM on the last piece only) `read_raw()` returns exactly the concatenation
 of the pieces, consumes exactly those transfers, and sends one request per transfer. -/
@@ -470,6 +491,44 @@ example : (readRaw { mts := 4 } 254 (-1)
     [.data [2, 255, 0, 0, 2, 0, 0, 0, 0, 0, 0, 0, 10, 11, 0xAA], .data [2, 1, 254, 0, 1, 0, 0, 0, 1, 0, 0, 0, 12]]).res.toOption
       = some [10, 11, 12] := by decide
 
+/-- `read_raw(num)` with `num > 0`, against a device that never sends more than is still wanted: the result is made of
+whole transfers from the front of the reply, is never longer than `num`, and is exactly `num` bytes long unless the
+message ended (EOM) first; the transfers not needed are not consumed. -/
+theorem readRaw_num_prefix (cfg : Cfg) (hr : cfg.rigol = false) (ha : cfg.advantest = false)
+    (hm : cfg.mts < 4294967296) (last : Nat) (num : Int) (hnum : 0 < num) (pieces : List Piece)
+    (hconf : Conforms num pieces)
+    (hend : (pieces.map Piece.payload).flatten.length ≥ num.toNat ∨ ∃ p ∈ pieces, p.eom = true) :
+    ∃ k, k ≤ pieces.length
+      ∧ (readRaw cfg last num (pieces.map (fun p => Ev.data p.bytes))).res
+          = .ok ((pieces.take k).map Piece.payload).flatten
+      ∧ (readRaw cfg last num (pieces.map (fun p => Ev.data p.bytes))).left = (pieces.drop k).map (fun p => Ev.data p.bytes)
+      ∧ ((pieces.take k).map Piece.payload).flatten.length ≤ num.toNat
+      ∧ (((pieces.take k).map Piece.payload).flatten.length = num.toNat ∨ ∃ p ∈ pieces.take k, p.eom = true) := by
+  simp only [readRaw]
+  have hlen : (if 0 < num ∧ num < (cfg.mts : Int) then num.toNat else cfg.mts) < 4294967296 := by
+    split
+    · omega
+    · exact hm
+  have := readLoop_num cfg hr ha pieces
+    { last, num, readLen := if 0 < num ∧ num < (cfg.mts : Int) then num.toNat else cfg.mts } hnum hlen hconf hend
+  simpa using this
+
+-- non-vacuity: 5-byte reply in pieces 2+1+2, `num = 3`: the first two transfers are consumed, the third is left
+example : (readRaw { mts := 4 } 0 3 [.data [2, 1, 254, 0, 2, 0, 0, 0, 0, 0, 0, 0, 10, 11], .data [2, 2, 253, 0, 1, 0, 0, 0, 0, 0, 0, 0, 12],
+      .data [2, 3, 252, 0, 2, 0, 0, 0, 1, 0, 0, 0, 13, 14]]).res.toOption = some [10, 11, 12]
+    ∧ (readRaw { mts := 4 } 0 3 [.data [2, 1, 254, 0, 2, 0, 0, 0, 0, 0, 0, 0, 10, 11], .data [2, 2, 253, 0, 1, 0, 0, 0, 0, 0, 0, 0, 12],
+      .data [2, 3, 252, 0, 2, 0, 0, 0, 1, 0, 0, 0, 13, 14]]).left.length = 1 := by decide
+
+/-- **No wrong data, ever**: for every script of Bulk-IN outcomes whatsoever (valid, corrupted, truncated, endpoint errors),
+`read_raw()` returns data exactly when the USBTMC §3.3 host rule `hostSpec` yields a message, and then that message; in all
+other cases it raises. -/
+theorem readRaw_refines_hostSpec (cfg : Cfg) (hr : cfg.rigol = false) (ha : cfg.advantest = false)
+    (hm : cfg.mts < 4294967296) (last : Nat) (num : Int) (hnum : num ≤ 0) (script : List Ev) :
+    (readRaw cfg last num script).res.toOption = hostSpec script [] := by
+  have hn : ¬ (0 < num ∧ num < (cfg.mts : Int)) := by omega
+  simp only [readRaw, hn, if_false]
+  exact readLoop_refines_hostSpec cfg hr ha script { last, num, readLen := cfg.mts } hnum hm
+
 /-- a reply that never reaches EOM raises (USB time-out after the last transfer, abort sequence names the last tag) -/
 theorem readRaw_incomplete_times_out (cfg : Cfg) (hr : cfg.rigol = false) (ha : cfg.advantest = false)
     (hm : cfg.mts < 4294967296) (last : Nat) (num : Int) (hnum : num ≤ 0) (pieces : List Piece)
@@ -479,6 +538,9 @@ theorem readRaw_incomplete_times_out (cfg : Cfg) (hr : cfg.rigol = false) (ha : 
   have hn : ¬ (0 < num ∧ num < (cfg.mts : Int)) := by omega
   simp only [readRaw, hn, if_false]
   exact readLoop_incomplete cfg hr ha pieces { last, num, readLen := cfg.mts } hnum hm hall
+
+example : (readRaw { mts := 8 } 3 (-1) [.data [2, 4, 251, 0, 2, 0, 0, 0, 0, 0, 0, 0, 7, 8]]).res.toOption = none
+    ∧ (readRaw { mts := 8 } 3 (-1) [.data [2, 4, 251, 0, 2, 0, 0, 0, 0, 0, 0, 0, 7, 8]]).abortTag = some 5 := by decide
 
 /-- header corruption: a first transfer shorter than the 12-byte header raises `struct.error`, no data is returned -/
 theorem readRaw_short_header_errors (cfg : Cfg) (hr : cfg.rigol = false) (hm : cfg.mts < 4294967296)
@@ -491,6 +553,8 @@ theorem readRaw_short_header_errors (cfg : Cfg) (hr : cfg.rigol = false) (hm : c
   · rename_i h'; omega
   · exact hm
 
+
+example : (readRaw { mts := 8 } 3 (-1) [.data [2, 4, 251, 0, 2, 0, 0]]).res.toOption = none := by decide
 
 /-- USBTMC 1.0 §3.3.1.1: a transfer that carries fewer data bytes than its TransferSize claims (a corrupted length
 field, or a short packet) never completes the message, whatever its EOM bit says: `read_raw` asks for more and, when
@@ -510,6 +574,8 @@ theorem readRaw_partial_transfer_never_completes (cfg : Cfg) (hr : cfg.rigol = f
     Bool.false_eq_true, if_false, if_true, le32, List.cons_append, List.nil_append, unpackResp, unLe32_le32 _ hts, htake,
     hn', false_and, ge_iff_le, hge]
   simp [readLoop, reqStep, hr, packIn_ok _ _ _ hm]
+
+example : (readRaw { mts := 8 } 3 (-1) [.data [2, 4, 251, 0, 9, 0, 0, 0, 1, 0, 0, 0, 7, 8]]).res.toOption = none := by decide
 
 /-- What `read_raw` does **not** check (the stronger wish "every header-field corruption raises" is false of the code):
 a reply whose MsgID is not DEV_DEP_MSG_IN, whose bTag is not the request's and whose bTagInverse is not the complement is
